@@ -89,6 +89,12 @@ def plan_wrap(pid, tier, seed):
                          args=["--tier", tier, "--seed", str(seed), "--n", n8]))
         gens.append(dict(name="wrapwide_" + prof, profile=prof, bin="wrap", dom="big", per_shard=4000,
                          args=["--big", "--tier", tier, "--seed", str(seed), "--n", nw]))
+    # spec -> impl: programs generated by TLC simulation of the closed specification tla/vm/WrapVM.tla
+    # (tla/mc/Gen_WrapVM; corpus committed, regenerated by the thorough tier) replayed on the real Wrapping<F>
+    corpus = os.path.join(core.ROOT, "corpus", "wrap_programs.ndjson")
+    for prof in ("unchecked", "checked"):
+        gens.append(dict(name="wrapgen_" + prof, profile=prof, bin="wrap", dom="int", per_shard=20000,
+                         args=["--tier", tier, "--seed", str(seed), "--replay", corpus], replayable=False))
     gens.append(dict(name="parse_wrapping", profile="unchecked", bin="text", dom="big", per_shard=1500,
                      args=["--topic", "ties,dec,radix,malformed", "--tier", "quick", "--seed", str(seed)]))
     return dict(
@@ -132,7 +138,9 @@ def pair_profiles(traces, wdir, tier, seed):
                 fo.write('{"k":"pair","u":%s,"c":%s}\n' % (lu.rstrip("\n"), lc.rstrip("\n")))
                 n += 1
             if fu.readline() or fc.readline():
-                raise core.ToolError("profile traces of %s differ in length" % base)
+                # the generators are deterministic and independent of outcomes: a different number of events
+                # means the library behaved differently under the two profiles while generating operands
+                fo.write('{"k":"pair","u":{"k":"length","base":"%s"},"c":{"k":"mismatch"}}\n' % base)
         os.remove(pu)
         os.remove(pc)
         out.append((po, dom, max(1000, per // 2)))
